@@ -1,6 +1,7 @@
 import LinfaSpec.Proofs.Metrics
 import LinfaSpec.Proofs.MetricsRoc
 import LinfaSpec.Proofs.MetricsReal
+import LinfaSpec.Proofs.MetricsMore
 
 /-!
 # C05 — every evaluation metric equals its definition recomputed from first principles
@@ -470,6 +471,65 @@ theorem mcc_binary (a b c d : Nat) :
 example : (mcc [[3, 0], [1, 2]] : ℝ) = 6 / Real.sqrt 72 := by
   rw [mcc_binary]; norm_num
 
+/-- **Matthews correlation, any number of classes**: on a `k × k` matrix the triple loop of `mcc()`
+is the multi-class coefficient `(c·s − Σ_k p_k·t_k) / √(Σ_k p_k (s − p_k)) / √(Σ_k t_k (s − t_k))`
+with `c` the number of correct samples (trace), `s` the number of samples, `p_k` / `t_k` the number
+of samples predicted as / truly of class `k` (row and column sums) -/
+theorem mcc_multiclass (k : Nat) (m : List (List Nat)) (h : Square k m) :
+    (mcc m : ℝ) =
+      (((diagSum m : Nat) : ℝ) * ((total m : Nat) : ℝ) -
+          ((List.range k).map fun a => ((rowSum m a : Nat) : ℝ) * ((colSum m a : Nat) : ℝ)).sum) /
+        Real.sqrt (((List.range k).map fun a =>
+          ((rowSum m a : Nat) : ℝ) * (((total m : Nat) : ℝ) - ((rowSum m a : Nat) : ℝ))).sum) /
+        Real.sqrt (((List.range k).map fun a =>
+          ((colSum m a : Nat) : ℝ) * (((total m : Nat) : ℝ) - ((colSum m a : Nat) : ℝ))).sum) := by
+  unfold mcc
+  simp only [h.1, Transc.sqrt]
+  rw [mcc_covXY h, foldl_add, foldl_add]
+  simp
+
+example : Square 3 [[2, 0, 1], [1, 3, 0], [0, 1, 2]] := by
+  refine ⟨rfl, ?_⟩
+  intro r hr
+  simp only [List.mem_cons, List.not_mem_nil, or_false] at hr
+  rcases hr with rfl | rfl | rfl <;> rfl
+
+/-- **Matthews correlation of a confusion matrix, in terms of the samples**: with `n` samples, `c`
+of them predicted correctly, `p_l` predicted as class `l` and `t_l` truly of class `l`, `mcc()` of
+the matrix built by `confusion_matrix` is `(c·n − Σ_l p_l·t_l) / √(Σ_l p_l(n−p_l)) / √(Σ_l t_l(n−t_l))` -/
+theorem mcc_confusion {L : Type} [LinearOrder L] (cs : List L) (hnd : cs.Nodup) (pairs : List (L × L))
+    (hall : ∀ p ∈ pairs, p.1 ∈ cs ∧ p.2 ∈ cs) :
+    (mcc (countLoop cs pairs) : ℝ) =
+      (((pairs.filter fun p => p.1 = p.2).length : ℝ) * (pairs.length : ℝ) -
+          (cs.map fun c => ((pairs.filter fun p => p.1 = c).length : ℝ) *
+            ((pairs.filter fun p => p.2 = c).length : ℝ)).sum) /
+        Real.sqrt ((cs.map fun c => ((pairs.filter fun p => p.1 = c).length : ℝ) *
+          ((pairs.length : ℝ) - ((pairs.filter fun p => p.1 = c).length : ℝ))).sum) /
+        Real.sqrt ((cs.map fun c => ((pairs.filter fun p => p.2 = c).length : ℝ) *
+          ((pairs.length : ℝ) - ((pairs.filter fun p => p.2 = c).length : ℝ))).sum) := by
+  rw [mcc_multiclass cs.length _ (countLoop_square cs pairs), cm_diag_count cs hnd pairs hall,
+    cm_sum cs hnd pairs hall]
+  have e1 := range_map_eq_map cs
+    (fun a => ((rowSum (countLoop cs pairs) a : Nat) : ℝ) * ((colSum (countLoop cs pairs) a : Nat) : ℝ))
+    (fun c => ((pairs.filter fun p => p.1 = c).length : ℝ) * ((pairs.filter fun p => p.2 = c).length : ℝ))
+    (fun a c hc => by rw [cm_row_count cs hnd pairs hall a c hc, cm_col_count cs hnd pairs hall a c hc])
+  have e2 := range_map_eq_map cs
+    (fun a => ((rowSum (countLoop cs pairs) a : Nat) : ℝ) *
+      ((pairs.length : ℝ) - ((rowSum (countLoop cs pairs) a : Nat) : ℝ)))
+    (fun c => ((pairs.filter fun p => p.1 = c).length : ℝ) *
+      ((pairs.length : ℝ) - ((pairs.filter fun p => p.1 = c).length : ℝ)))
+    (fun a c hc => by rw [cm_row_count cs hnd pairs hall a c hc])
+  have e3 := range_map_eq_map cs
+    (fun a => ((colSum (countLoop cs pairs) a : Nat) : ℝ) *
+      ((pairs.length : ℝ) - ((colSum (countLoop cs pairs) a : Nat) : ℝ)))
+    (fun c => ((pairs.filter fun p => p.2 = c).length : ℝ) *
+      ((pairs.length : ℝ) - ((pairs.filter fun p => p.2 = c).length : ℝ)))
+    (fun a c hc => by rw [cm_col_count cs hnd pairs hall a c hc])
+  rw [e1, e2, e3]
+
+example : ([0, 1, 2] : List Nat).Nodup ∧ ∀ p ∈ [(0, 1), (2, 2), (1, 1)], p.1 ∈ [0, 1, 2] ∧ p.2 ∈ [0, 1, 2] := by
+  decide
+
 end Mcc
 
 section PermReg
@@ -507,6 +567,196 @@ theorem perm_invariant_regression (tiny : α) (ps ps' : List (α × α)) (h : ps
 
 example : ([((1 : Rat), (2 : Rat)), (3, 1), (2, 2)]).Perm [(2, 2), (1, 2), (3, 1)] := by decide
 
+/-- **mean absolute percentage error**: the mean of `|(x - y) / x|`, the error taken relative to
+the receiver `a` (the prediction), as the statement says -/
+theorem mape_def (a b : List α) (h : List.zipWith (· - ·) a b ≠ []) :
+    mape a b = some ((List.zipWith (fun x y => |(x - y) / x|) a b).sum /
+      ((List.zipWith (· - ·) a b).length : α)) := by
+  have e1 : (List.zipWith (· / ·) (subL a b) a).map absS = List.zipWith (fun x y => |(x - y) / x|) a b := by
+    rw [subL_div_eq]; simp [List.map_zipWith, absS_eq_abs]
+  unfold mape
+  rw [meanS_eq _ (by rw [e1]; intro hc; apply h; simpa [List.zipWith_eq_nil_iff] using hc), e1]
+  simp
+
+example : mape [2, 4, (1 : Rat)] [1, 5, 1] = some (1 / 4) := by decide +kernel
+
+/-- **median absolute error**: the middle element of the sorted absolute errors, the mean of the two
+middle ones for an even number of samples.  `s` is the sorted list the code builds. -/
+theorem median_def (a b : List α) (h : List.zipWith (· - ·) a b ≠ []) :
+    ∃ s : List α, s.Perm (List.zipWith (fun x y => |x - y|) a b) ∧ s.Pairwise (· ≤ ·) ∧
+      ∃ (h0 : s.length / 2 < s.length),
+        medianAbsError a b = some (if s.length % 2 = 0
+          then (s[s.length / 2 - 1]'(by omega) + s[s.length / 2]) / 2 else s[s.length / 2]) := by
+  have e1 : (subL a b).map absS = List.zipWith (fun x y => |x - y|) a b := by
+    simp [subL, List.map_zipWith, absS_eq_abs]
+  have hne : List.zipWith (fun x y => |x - y|) a b ≠ [] := by
+    intro hc; apply h; simpa [List.zipWith_eq_nil_iff] using hc
+  refine ⟨sortAsc (List.zipWith (fun x y => |x - y|) a b), perm_sortAsc _, sorted_sortAsc _, ?_⟩
+  have hlen : 0 < (sortAsc (List.zipWith (fun x y => |x - y|) a b)).length := by
+    rw [(perm_sortAsc _).length_eq]; exact List.length_pos_of_ne_nil hne
+  refine ⟨by omega, ?_⟩
+  unfold medianAbsError
+  rw [e1]
+  exact median_pick _ hlen
+
+example : medianAbsError [1, 5, 2, (9 : Rat)] [2, 1, 2, 3] = some (5 / 2) := by decide +kernel
+
+/-- **permutation invariance of the order statistics and of MAPE**: median absolute error, max
+error and MAPE are unchanged by one permutation applied to predictions and truths together -/
+theorem perm_invariant_order_stats (ps ps' : List (α × α)) (h : ps.Perm ps') :
+    medianAbsError (ps.map Prod.fst) (ps.map Prod.snd) = medianAbsError (ps'.map Prod.fst) (ps'.map Prod.snd) ∧
+    maxError (ps.map Prod.fst) (ps.map Prod.snd) = maxError (ps'.map Prod.fst) (ps'.map Prod.snd) ∧
+    mape (ps.map Prod.fst) (ps.map Prod.snd) = mape (ps'.map Prod.fst) (ps'.map Prod.snd) := by
+  have hd : ((ps.map fun p => p.1 - p.2).map absS).Perm ((ps'.map fun p => p.1 - p.2).map absS) :=
+    (h.map _).map _
+  refine ⟨?_, ?_, ?_⟩
+  · unfold medianAbsError
+    rw [subL_eq_map, subL_eq_map, sortAsc_perm hd]
+  · rw [maxError_eq, maxError_eq, subL_eq_map, subL_eq_map]
+    exact maxOpt_perm hd
+  · unfold mape
+    rw [subL_div_eq, subL_div_eq, zipWith_map_fst_snd, zipWith_map_fst_snd]
+    exact meanS_perm ((h.map _).map _)
+
 end PermReg
+
+section LogLoss
+
+/-- **log-loss is the mean clipped negative log-likelihood**: every probability is clipped to
+`[eps, 1 - eps]` (`eps = f32::EPSILON`), the summand is `-ln p` for a positive and `-ln (1 - p)`
+for a negative sample, the sum is divided by the number of samples; no samples = `NotEnoughSamples` -/
+theorem log_loss_def (eps : ℝ) (heps : eps ≤ 1 - eps) (ps : List (ℝ × Bool)) :
+    logLoss eps (ps.map Prod.fst) (ps.map Prod.snd) =
+      if ps = [] then none else some ((ps.map fun p =>
+        if p.2 then -Real.log (max eps (min (1 - eps) p.1))
+        else -Real.log (1 - max eps (min (1 - eps) p.1))).sum / (ps.length : ℝ)) :=
+  logLoss_pairs eps heps ps
+
+/-- log-loss is unchanged by one permutation applied to probabilities and labels together -/
+theorem perm_invariant_log_loss (eps : ℝ) (heps : eps ≤ 1 - eps) (ps ps' : List (ℝ × Bool)) (h : ps.Perm ps') :
+    logLoss eps (ps.map Prod.fst) (ps.map Prod.snd) = logLoss eps (ps'.map Prod.fst) (ps'.map Prod.snd) := by
+  rw [logLoss_pairs eps heps, logLoss_pairs eps heps, (h.map _).sum_eq, h.length_eq]
+  by_cases hp : ps = []
+  · subst hp; rw [h.symm.eq_nil]
+  · have hp' : ps' ≠ [] := fun hc => hp (by subst hc; exact h.eq_nil)
+    simp [hp, hp']
+
+example : ((1 : ℝ) / 8388608) ≤ 1 - 1 / 8388608 := by norm_num
+
+/-- **mean squared log error**: the mean of `(ln(1+x) - ln(1+y))²` -/
+theorem msle_def (a b : List ℝ) (h : List.zipWith (· - ·) a b ≠ []) :
+    meanSqLogError a b = some ((List.zipWith (fun x y =>
+        (Real.log (1 + x) - Real.log (1 + y)) * (Real.log (1 + x) - Real.log (1 + y))) a b).sum /
+      ((List.zipWith (· - ·) a b).length : ℝ)) := by
+  have e2 : (subL (a.map fun x => Transc.ln (1 + x)) (b.map fun x => Transc.ln (1 + x))).map (fun x => x * x) =
+      List.zipWith (fun x y =>
+        (Real.log (1 + x) - Real.log (1 + y)) * (Real.log (1 + x) - Real.log (1 + y))) a b := by
+    simp [subL, List.map_zipWith, List.zipWith_map, Transc.ln]
+  unfold meanSqLogError meanSqError
+  rw [meanS_eq _ (by rw [e2]; intro hc; apply h; simpa [List.zipWith_eq_nil_iff] using hc), e2]
+  simp
+
+example : List.zipWith (· - ·) [(1 : ℝ), 2] [0, 3] ≠ [] := by simp
+
+end LogLoss
+
+section Pearson
+
+/-- **Pearson coefficients equal the textbook formula, in upper-triangle order**: the output lists,
+for the feature pairs `(i, j)` with `i < j` in row-major order, the covariance divided by the product
+of the standard deviations (`pearsonCoeff`, all with the `n - 1` denominator).  The proof shows that
+the centred columns have mean zero, so the `var_axis` of the centred column the code takes is the
+variance of the feature. -/
+theorem pearson_def (rows : List (List ℝ)) (p : Nat) (h : rows ≠ []) :
+    pearson rows p = (List.range (p - 1)).flatMap fun i =>
+      ((List.range p).filter fun j => i < j).map fun j =>
+        coMoment rows i j / ((rows.length - 1 : Nat) : ℝ) /
+          Real.sqrt (coMoment rows i i / ((rows.length - 1 : Nat) : ℝ)) /
+          Real.sqrt (coMoment rows j j / ((rows.length - 1 : Nat) : ℝ)) :=
+  pearson_eq_coeff rows p h
+
+example : coMoment [[1, 2], [3, 6], [(5 : ℝ), 10]] 0 1 = 16 := by
+  simp only [coMoment, colMean, List.map_cons, List.map_nil, List.sum_cons, List.sum_nil, List.getD_cons_zero,
+    List.getD_cons_succ, List.length_cons, List.length_nil]
+  norm_num
+
+/-- there are `p(p-1)/2` coefficients -/
+theorem pearson_count (rows : List (List ℝ)) (p : Nat) : 2 * (pearson rows p).length = p * (p - 1) := by
+  have h := (ovo_split_cells (List.replicate p ([] : List Nat))).2
+  rw [List.length_replicate] at h
+  rw [← h, pearson_unfold]
+  congr 1
+  unfold splitOneVsOne
+  rw [List.length_replicate]
+  simp only [List.length_flatMap, List.length_map]
+  cases p with
+  | zero => rfl
+  | succ k =>
+    have hk : ((List.range (k + 1)).filter fun j => decide (k < j)).length = 0 := by
+      rw [List.length_eq_zero_iff, List.filter_eq_nil_iff]
+      intro a ha
+      have := List.mem_range.mp ha
+      simp; omega
+    have key : ∀ c : Nat → Nat, c k = 0 → ((List.range k).map c).sum = ((List.range (k + 1)).map c).sum := by
+      intro c hc
+      rw [List.range_succ, List.map_append, List.sum_append]
+      simp [hc]
+    exact key _ hk
+
+example : (pearson [[1, 2, 4], [3, 6, 1], [(5 : ℝ), 10, 2]] 3).length = 3 := by
+  have := pearson_count [[1, 2, 4], [3, 6, 1], [(5 : ℝ), 10, 2]] 3
+  omega
+
+/-- the coefficients are unchanged by a permutation of the observations -/
+theorem perm_invariant_pearson (rows rows' : List (List ℝ)) (p : Nat) (h : rows.Perm rows') :
+    pearson rows p = pearson rows' p := by
+  by_cases hr : rows = []
+  · subst hr; rw [h.symm.eq_nil]
+  · have hr' : rows' ≠ [] := fun hc => hr (by subst hc; exact h.eq_nil)
+    rw [pearson_eq_coeff _ _ hr, pearson_eq_coeff _ _ hr']
+    simp only [pearsonCoeff_perm h]
+
+end Pearson
+
+section Silhouette
+variable {α : Type} [Field α] [LinearOrder α] [IsStrictOrderedRing α]
+
+/-- **silhouette of one sample**: with `a` the mean distance to the other members of the own
+cluster (`total / (count - 1)`, 0 for a singleton) and `means` the mean distances to every other
+cluster, the value is `(b - a) / max a b` where `b` is the least of `means` -/
+theorem silhouette_sample_def (d : List (List α)) (labels : List Nat) (i li : Nat)
+    (hk : (labelSet labels).filter (· != li) ≠ []) :
+    ∃ b : α,
+      b ∈ ((labelSet labels).filter (· != li)).map (fun l => totalDist d labels i l / ((labelCount labels l : Nat) : α)) ∧
+      (∀ m ∈ ((labelSet labels).filter (· != li)).map (fun l => totalDist d labels i l / ((labelCount labels l : Nat) : α)), b ≤ m) ∧
+      silSample d labels i li =
+        (b - (if labelCount labels li = 1 then 0 else totalDist d labels i li / ((labelCount labels li - 1 : Nat) : α))) /
+          max (if labelCount labels li = 1 then 0 else totalDist d labels i li / ((labelCount labels li - 1 : Nat) : α)) b := by
+  unfold silSample
+  simp only []
+  generalize (if labelCount labels li = 1 then (0 : α) else totalDist d labels i li / ((labelCount labels li - 1 : Nat) : α)) = a
+  generalize hm : ((labelSet labels).filter (· != li)).map (fun l => totalDist d labels i l / ((labelCount labels l : Nat) : α)) = means
+  cases means with
+  | nil => exact absurd (List.map_eq_nil_iff.mp hm) hk
+  | cons m0 ms =>
+    obtain ⟨h1, h2⟩ := foldl_min_spec ms m0
+    refine ⟨_, h2, fun m hm' => h1 m hm', ?_⟩
+    simp only []
+    split
+    · rename_i hba; rw [max_eq_left hba]
+    · rename_i hba; rw [max_eq_right (le_of_lt (not_le.mp hba))]
+
+/-- **silhouette score**: 1 for a single cluster, otherwise the mean of the per-sample values -/
+theorem silhouette_def (d : List (List α)) (labels : List Nat) :
+    ((labelSet labels).length = 1 → silhouette d labels = 1) ∧
+    ((labelSet labels).length ≠ 1 → silhouette d labels =
+      (((List.range labels.length).zip labels).map fun p => silSample d labels p.1 p.2).sum / (labels.length : α)) := by
+  refine ⟨fun h => by simp [silhouette, h], fun h => ?_⟩
+  simp only [silhouette, h, if_false, sumS_eq_sum]
+
+example : silhouette [[0, 1, 4, 5], [1, 0, 3, 4], [4, 3, 0, 1], [5, 4, 1, (0 : Rat)]] [0, 0, 1, 1] = 47 / 63 := by
+  decide +kernel
+
+end Silhouette
 
 end LinfaSpec.Props.C05
